@@ -50,3 +50,12 @@ PROPS = {
         "assumptions": [],
     },
 }
+
+
+# further properties live in checklib/props_*.py (each defines PROPS = {...}); merged here
+import glob as _glob, importlib.util as _ilu, os as _os
+for _f in sorted(_glob.glob(_os.path.join(_os.path.dirname(_os.path.abspath(__file__)), "props_*.py"))):
+    _spec = _ilu.spec_from_file_location(_os.path.basename(_f)[:-3], _f)
+    _m = _ilu.module_from_spec(_spec)
+    _spec.loader.exec_module(_m)
+    PROPS.update(_m.PROPS)
